@@ -57,12 +57,12 @@ CopyTree(s, D, i, k, base, o, a) ==
             ELSE IF e.t = "dir"
             THEN IF q \in DOMAIN s.fs THEN CopyTree(s, D, i, k + 1, base, o, a)
                  ELSE CopyTree(Chmod(MkdirP(s, q, o, a.dry), q, DefaultPerm(o, e.m), a.dry), D, i, k + 1, base, o, a)
-            ELSE CopyTree(CopyFile(s, q, File(ModeOf(o, i, e.m), e.c), o, a), D, i, k + 1, base, o, a)
+            ELSE CopyTree(CopyFile(s, q, EntryNode(o, i, e), o, a), D, i, k + 1, base, o, a)
 
 \* one rule; D = DESTDIR (a path of the whole file system)
 DoItem(s, D, i, o, a) ==
     CASE i.kind \in {"data", "header", "man", "target"} ->
-           CopyFile(s, D \o FileDest(o, i), File(ModeOf(o, i, i.st[1].m), i.st[1].c), o, a)
+           CopyFile(s, D \o FileDest(o, i), EntryNode(o, i, i.st[1]), o, a)
       [] i.kind = "subdir" ->
            CopyTree(MkdirP(s, D \o SubBase(o, i), o, a.dry), D, i, 1, D \o SubBase(o, i), o, a)
       [] i.kind = "emptydir" ->
